@@ -18,7 +18,9 @@ from typing import Callable, List, Optional, Tuple
 from .model import dotted
 
 INCREASING = {"log", "log1p", "exp", "expm1", "sqrt", "sum", "mean", "max", "min", "amax", "amin", "cumsum", "asarray", "array", "float", "float64", "atleast_1d", "squeeze",
-              "logsumexp", "reduce", "accumulate", "nansum", "copy", "ravel", "reshape", "transpose"}
+              "logsumexp", "reduce", "accumulate", "nansum", "copy", "ravel", "reshape", "transpose",
+              # element-for-element materialisations of their first argument
+              "fromiter", "list", "tuple", "asanyarray", "ascontiguousarray"}
 
 
 def path_signs(root: ast.expr, is_target: Callable[[ast.AST], bool], sign_of: Callable[[ast.expr], Optional[int]],
